@@ -47,9 +47,17 @@ type vfC08Backend struct {
 
 type vfC08Flight struct {
 	id      int
-	entered chan struct{}
+	stream  bool
+	enter   chan struct{} // one token per transport call made for this request
 	release chan vfC08Backend
 	done    chan vfC08Done
+}
+
+func (fl *vfC08Flight) kind() string {
+	if fl.stream {
+		return "stream"
+	}
+	return "buffered"
 }
 
 type vfC08Done struct {
@@ -71,7 +79,7 @@ func vfC08Send(r *http.Request, client *http.Client) (*http.Response, error) {
 		return nil, fmt.Errorf("vf: unknown flight %q", r.Header.Get("X-Vf-Id"))
 	}
 	fl := v.(*vfC08Flight)
-	close(fl.entered)
+	fl.enter <- struct{}{}
 	b := <-fl.release
 	switch b.kind {
 	case "ok":
@@ -128,8 +136,16 @@ pools:
   failureCodes: [500]
 `
 
-// TestVerifC08Proxy: a Proxy whose pool uses a generated CircuitBreaker policy, transport stubbed.
-// Requests are started (the stub blocks until released), answered with 200 / failure code 500 /
+// the same pool with a retry policy inside the breaker (the breaker is the outermost wrapper: one
+// request = one breaker call whatever the number of attempts; stream requests are never retried)
+const vfC08ProxyRetryYAML = vfC08ProxyYAML + `  retryPolicy: rt
+`
+
+const vfC08MaxAttempts = 2
+
+// TestVerifC08Proxy: a Proxy whose pool uses a generated CircuitBreaker policy (with or without a
+// retry policy next to it), transport stubbed. Requests carry a buffered or a stream payload (built
+// the way the HTTP server does: FetchPayload(0) / FetchPayload(-1)). Requests are started (the stub blocks until released), answered with 200 / failure code 500 /
 // network error — possibly after the breaker changed state — and the clock is advanced. Checked
 // against the reference automaton: which requests are short-circuited; a short-circuited request
 // yields result "shortCircuited", status 503 and never reaches the transport; an admitted request
@@ -171,7 +187,20 @@ func TestVerifC08Proxy(t *testing.T) {
 			rt.Fatalf("VF-INCONCLUSIVE policy rejected: %v (%v)", err, rawPol)
 		}
 		rawSpec := map[string]interface{}{}
-		if err := yaml.Unmarshal([]byte(vfC08ProxyYAML), &rawSpec); err != nil {
+		withRetry := rapid.Bool().Draw(rt, "withRetry")
+		streamPct := rapid.SampledFrom([]int{0, 30, 50, 100}).Draw(rt, "streamPct")
+		specYAML := vfC08ProxyYAML
+		policies := map[string]resilience.Policy{"cb": pol}
+		if withRetry {
+			specYAML = vfC08ProxyRetryYAML
+			rp, err := resilience.NewPolicy(map[string]interface{}{"kind": "Retry", "name": "rt",
+				"maxAttempts": vfC08MaxAttempts, "waitDuration": "1ms", "backOffPolicy": "random"})
+			if err != nil {
+				rt.Fatalf("VF-INCONCLUSIVE retry policy rejected: %v", err)
+			}
+			policies["rt"] = rp
+		}
+		if err := yaml.Unmarshal([]byte(specYAML), &rawSpec); err != nil {
 			rt.Fatalf("VF-INCONCLUSIVE %v", err)
 		}
 		spec, err := filters.NewSpec(nil, "", rawSpec)
@@ -181,7 +210,7 @@ func TestVerifC08Proxy(t *testing.T) {
 		px := kind.CreateInstance(spec).(*Proxy)
 		px.Init()
 		defer px.Close()
-		px.InjectResiliencePolicy(map[string]resilience.Policy{"cb": pol})
+		px.InjectResiliencePolicy(policies)
 		stater, ok := px.mainPool.circuitBreakerWrapper.(interface{ State() libcb.State })
 		if !ok {
 			rt.Fatalf("VF-INCONCLUSIVE cannot read the breaker state from %T", px.mainPool.circuitBreakerWrapper)
@@ -193,7 +222,7 @@ func TestVerifC08Proxy(t *testing.T) {
 		var hist []string
 		nextID := 0
 		failed := false
-		shortCircuits := 0
+		shortCircuits, streamShortCircuits, streamAdmitted, retried := 0, 0, 0, 0
 
 		log := func(format string, a ...interface{}) {
 			hist = append(hist, fmt.Sprintf("t=+%dns ", vfC08Now()-start)+fmt.Sprintf(format, a...))
@@ -210,14 +239,24 @@ func TestVerifC08Proxy(t *testing.T) {
 			}
 		}()
 
-		startReq := func() (*vfC08Flight, bool) {
-			fl := &vfC08Flight{id: nextID, entered: make(chan struct{}), release: make(chan vfC08Backend), done: make(chan vfC08Done, 1)}
+		startReq := func(stream bool) (*vfC08Flight, bool) {
+			fl := &vfC08Flight{id: nextID, stream: stream, enter: make(chan struct{}, 2*vfC08MaxAttempts+2),
+				release: make(chan vfC08Backend), done: make(chan vfC08Done, 1)}
 			nextID++
 			idStr := strconv.Itoa(fl.id)
 			vfC08Flights.Store(idStr, fl)
-			stdr, _ := http.NewRequest(http.MethodGet, "http://example.com/c08", nil)
+			stdr, _ := http.NewRequest(http.MethodPost, "http://example.com/c08", strings.NewReader("request body of c08"))
 			stdr.Header.Set("X-Vf-Id", idStr)
 			req, _ := httpprot.NewRequest(stdr)
+			// what HTTPServer does before handing the request to the pipeline: clientMaxBodySize -1 =
+			// stream, otherwise the body is read into memory
+			size := int64(0)
+			if stream {
+				size = -1
+			}
+			if err := req.FetchPayload(size); err != nil || req.IsStream() != stream {
+				rt.Fatalf("VF-INCONCLUSIVE cannot build a %s request: err=%v IsStream=%v", fl.kind(), err, req.IsStream())
+			}
 			ctx := context.New(tracing.NoopSpan)
 			ctx.SetRequest(context.DefaultNamespace, req)
 			callsBefore := atomic.LoadInt64(&vfC08TransportCalls)
@@ -238,20 +277,23 @@ func TestVerifC08Proxy(t *testing.T) {
 			}()
 			before := tr.States()
 			select {
-			case <-fl.entered:
+			case <-fl.enter:
 				got := vfC08StateName(stater.State())
-				log("request #%d -> reached the transport; breaker %s", fl.id, got)
+				log("%s request #%d -> reached the transport; breaker %s", fl.kind(), fl.id, got)
 				if ok, want := tr.ObserveAcquire(fl.id, vfC08Now(), true, got); !ok {
 					outstanding = append(outstanding, fl)
-					report(fmt.Sprintf("proxy: request in model-state %s forwarded; breaker %s", before, got),
-						"the request was forwarded and the breaker is %s; the contract allows: %s", got, want)
+					report(fmt.Sprintf("proxy: %s request in model-state %s forwarded; breaker %s", fl.kind(), before, got),
+						"the %s request was forwarded and the breaker is %s; the contract allows: %s", fl.kind(), got, want)
 					return nil, false
+				}
+				if stream {
+					streamAdmitted++
 				}
 				return fl, true
 			case d := <-fl.done:
 				got := vfC08StateName(stater.State())
 				calls := atomic.LoadInt64(&vfC08TransportCalls) - callsBefore
-				log("request #%d -> result=%q status=%d transportCalls=%d panicked=%v; breaker %s", fl.id, d.result, d.status, calls, d.panicked, got)
+				log("%s request #%d -> result=%q status=%d transportCalls=%d panicked=%v; breaker %s", fl.kind(), fl.id, d.result, d.status, calls, d.panicked, got)
 				if d.panicked {
 					report("proxy: panic without reaching the transport", "Handle panicked: %v", d.panicVal)
 					return nil, false
@@ -262,6 +304,9 @@ func TestVerifC08Proxy(t *testing.T) {
 					return nil, false
 				}
 				shortCircuits++
+				if stream {
+					streamShortCircuits++
+				}
 				if d.status != http.StatusServiceUnavailable {
 					report(fmt.Sprintf("proxy: short-circuited request answered with status %d", d.status), "want 503")
 					return nil, false
@@ -271,34 +316,59 @@ func TestVerifC08Proxy(t *testing.T) {
 					return nil, false
 				}
 				if ok, want := tr.ObserveAcquire(fl.id, vfC08Now(), false, got); !ok {
-					report(fmt.Sprintf("proxy: request in model-state %s short-circuited; breaker %s", before, got),
+					report(fmt.Sprintf("proxy: %s request in model-state %s short-circuited; breaker %s", fl.kind(), before, got),
 						"the request was short-circuited and the breaker is %s; the contract allows: %s", got, want)
 				}
 				return nil, false
 			}
 		}
-		finish := func(fl *vfC08Flight, b vfC08Backend) {
+		// finish answers the pending transport call of an admitted request with answers[0]; should the
+		// pool call the transport again for the same request (retry), the next answers are given. The
+		// breaker must record exactly one outcome for the request: that of the last attempt.
+		finish := func(fl *vfC08Flight, answers []vfC08Backend) {
 			before := tr.States()
 			callsBefore := atomic.LoadInt64(&vfC08TransportCalls)
-			fl.release <- b
-			d := <-fl.done
+			last := answers[0]
+			attempts := 1
+			fl.release <- last
+			var d vfC08Done
+		loop:
+			for {
+				select {
+				case <-fl.enter:
+					if attempts < len(answers) {
+						last = answers[attempts]
+					}
+					attempts++
+					fl.release <- last
+				case d = <-fl.done:
+					break loop
+				}
+			}
 			got := vfC08StateName(stater.State())
 			calls := atomic.LoadInt64(&vfC08TransportCalls) - callsBefore
-			log("answer #%d %s -> result=%q status=%d; breaker %s", fl.id, b.kind, d.result, d.status, got)
+			log("answer #%d (%s) last=%s attempts=%d -> result=%q status=%d; breaker %s", fl.id, fl.kind(), last.kind, attempts, d.result, d.status, got)
+			if attempts > 1 {
+				retried++
+			}
 			wantResult, wantStatus := "", 200
-			switch b.kind {
+			switch last.kind {
 			case "code500":
 				wantResult, wantStatus = resultFailureCode, 500
 			case "neterr":
 				wantResult, wantStatus = resultServerError, 503
 			}
-			if d.panicked || d.result != wantResult || d.status != wantStatus || calls != 0 {
-				report(fmt.Sprintf("proxy: admitted request answered %s gives result=%q status=%d", b.kind, d.result, d.status),
-					"want result %q status %d, no further transport call (got %d), no panic (got %v)", wantResult, wantStatus, calls, d.panicVal)
+			if d.panicked || d.result != wantResult || d.status != wantStatus || calls != int64(attempts-1) {
+				report(fmt.Sprintf("proxy: admitted %s request answered %s gives result=%q status=%d", fl.kind(), last.kind, d.result, d.status),
+					"want result %q status %d, %d further transport calls (got %d), no panic (got %v)", wantResult, wantStatus, attempts-1, calls, d.panicVal)
 				return
 			}
-			if ok, want := tr.ObserveRecord(fl.id, b.kind != "ok", 0, vfC08Now(), got); !ok {
-				report(fmt.Sprintf("proxy: answer %s in model-state %s: breaker %s", b.kind, before, got),
+			if !withRetry && attempts != 1 {
+				report("proxy: request sent more than once by a pool without retry policy", "%d transport calls", attempts)
+				return
+			}
+			if ok, want := tr.ObserveRecord(fl.id, last.kind != "ok", 0, vfC08Now(), got); !ok {
+				report(fmt.Sprintf("proxy: %s request answered %s in model-state %s: breaker %s", fl.kind(), last.kind, before, got),
 					"after the answer the breaker is %s; the contract allows: %s", got, want)
 			}
 		}
@@ -309,11 +379,19 @@ func TestVerifC08Proxy(t *testing.T) {
 			return vfC08Backend{kind: "ok"}
 		}
 
+		genAnswers := func(rt *rapid.T) []vfC08Backend {
+			out := make([]vfC08Backend, vfC08MaxAttempts)
+			for i := range out {
+				out[i] = genBackend(rt)
+			}
+			return out
+		}
+		genStream := func(rt *rapid.T) bool { return rapid.IntRange(0, 99).Draw(rt, "stream") < streamPct }
 		actStart := func(rt *rapid.T) {
 			if failed {
 				return
 			}
-			if fl, ok := startReq(); ok {
+			if fl, ok := startReq(genStream(rt)); ok {
 				outstanding = append(outstanding, fl)
 			}
 		}
@@ -321,8 +399,8 @@ func TestVerifC08Proxy(t *testing.T) {
 			if failed {
 				return
 			}
-			b := genBackend(rt)
-			if fl, ok := startReq(); ok {
+			b := genAnswers(rt)
+			if fl, ok := startReq(genStream(rt)); ok {
 				finish(fl, b)
 			}
 		}
@@ -334,7 +412,7 @@ func TestVerifC08Proxy(t *testing.T) {
 				rt.Skip()
 			}
 			i := rapid.IntRange(0, len(outstanding)-1).Draw(rt, "which")
-			b := genBackend(rt)
+			b := genAnswers(rt)
 			fl := outstanding[i]
 			outstanding = append(outstanding[:i], outstanding[i+1:]...)
 			finish(fl, b)
@@ -367,14 +445,29 @@ func TestVerifC08Proxy(t *testing.T) {
 		if shortCircuits > 0 {
 			vf.Class("proxy: history-with-short-circuited-request")
 		}
+		if streamShortCircuits > 0 {
+			vf.Class("proxy: history-with-short-circuited-stream-request")
+		}
+		if streamAdmitted > 0 {
+			vf.Class("proxy: history-with-admitted-stream-request")
+		}
+		if retried > 0 {
+			vf.Class("proxy: history-with-retried-request")
+		}
+		if withRetry {
+			vf.Class("proxy: pool with retryPolicy")
+		} else {
+			vf.Class("proxy: pool without retryPolicy")
+		}
 		// non-trivial here: the stated rule and at least one request was short-circuited
-		vf.Case(st.NonTrivial() && shortCircuits > 0, "proxy||"+p.String()+"||"+strings.Join(hist, ";"), func() interface{} {
+		vf.Case(st.NonTrivial() && shortCircuits > 0, fmt.Sprintf("proxy||retry=%v||", withRetry)+p.String()+"||"+strings.Join(hist, ";"), func() interface{} {
 			h := hist
 			if len(h) > 40 {
 				h = h[:40]
 			}
 			return map[string]interface{}{"test": "proxy", "policy": p.String(), "history": h, "state_changes": st.Changes,
-				"short_circuited": shortCircuits, "late_results_ignored": st.Late}
+				"short_circuited": shortCircuits, "short_circuited_stream": streamShortCircuits, "retry_policy": withRetry,
+				"late_results_ignored": st.Late}
 		})
 	})
 }
